@@ -158,3 +158,45 @@ def c12_track(e):
         out = list(p.track(items))
     t = p.tasks[0]
     return out == items and t.completed == n and (n == 0 or t.finished) and t.total == n
+
+
+@symx("C12-stop-then-advance", timeout=600, kind="S", functions=F_P, stubs=STUBS, opts={"query_timeout_ms": 120000},
+      bounds="one started task, total in [1,30]; three advances with amounts in [0,30] and stop_task (optionally followed by "
+             "start_task) inserted at a solver-chosen position 0..3; clock steps in [0,40] symbolic: after every operation completed "
+             "is the sum of the advances, the speed estimate is never negative, and a finished task's finish time stays fixed",
+      outside="as C12-history-*; this is the 4..5-operation slice of the history space in which a task keeps advancing after it was "
+              "stopped (samples newer than stop_time)")
+def c12_stop_then_advance(e):
+    clock = Clock(e)
+    p = Progress(console=Console(file=io.StringIO(), width=80, force_terminal=False), auto_refresh=False, disable=True,
+                 get_time=clock, speed_estimate_period=30)
+    total = e.mk("total", 1, 30)
+    tid = p.add_task("a", total=total)
+    task = p._tasks[tid]
+    stop_at = int(e.mk("stop_at", 0, 3))
+    restart = bool(e.mkbool("restart_after_stop"))
+    done = 0
+    ok = True
+    for step in range(4):
+        if step == stop_at:
+            p.stop_task(tid)
+            if restart:
+                p.start_task(tid)
+        if step == 3:
+            break
+        old_ft = task.finished_time
+        a = e.mk("amt%d" % step, 0, 30)
+        if e.mkbool("via_update%d" % step):
+            p.update(tid, advance=a)
+        else:
+            p.advance(tid, a)
+        done = done + a
+        ok = sym_and(ok, task.completed == done)
+        sp = task.speed
+        if sp is not None:
+            ok = sym_and(ok, sp >= 0)
+        if old_ft is not None:
+            ok = sym_and(ok, task.finished_time is not None and _truth(task.finished_time == old_ft))
+        if _truth(task.completed >= task.total):
+            ok = sym_and(ok, task.finished)
+    return ok
